@@ -46,6 +46,10 @@ pub struct Backend {
     /// Serializes the load-append-save cycle of the dictionary commands, which would otherwise
     /// lose a word when two of them run concurrently.
     dict_write_lock: Mutex<()>,
+    /// Held by every handler that changes server state for as long as it runs. The lock is
+    /// fair, and handlers are first polled in the order their messages arrived, so they take
+    /// effect in that order even though tower-lsp runs several of them concurrently.
+    handler_order: Mutex<()>,
 }
 
 impl Backend {
@@ -56,6 +60,7 @@ impl Backend {
             config: RwLock::new(config),
             doc_state: Mutex::new(HashMap::new()),
             dict_write_lock: Mutex::new(()),
+            handler_order: Mutex::new(()),
         }
     }
 
@@ -461,6 +466,8 @@ impl LanguageServer for Backend {
     }
 
     async fn did_save(&self, params: DidSaveTextDocumentParams) {
+        let _in_order = self.handler_order.lock().await;
+
         self.update_document_from_file(&params.text_document.uri, None)
             .await
             .map_err(|err| error!("{err}"))
@@ -470,6 +477,8 @@ impl LanguageServer for Backend {
     }
 
     async fn did_open(&self, params: DidOpenTextDocumentParams) {
+        let _in_order = self.handler_order.lock().await;
+
         self.update_document(
             &params.text_document.uri,
             &params.text_document.text,
@@ -483,6 +492,8 @@ impl LanguageServer for Backend {
     }
 
     async fn did_change(&self, params: DidChangeTextDocumentParams) {
+        let _in_order = self.handler_order.lock().await;
+
         let Some(last) = params.content_changes.last() else {
             return;
         };
@@ -498,6 +509,8 @@ impl LanguageServer for Backend {
     }
 
     async fn did_close(&self, _params: DidCloseTextDocumentParams) {
+        let _in_order = self.handler_order.lock().await;
+
         let url = _params.text_document.uri;
         let mut doc_lock = self.doc_state.lock().await;
         doc_lock.remove(&url);
@@ -512,6 +525,8 @@ impl LanguageServer for Backend {
     }
 
     async fn did_change_watched_files(&self, params: DidChangeWatchedFilesParams) {
+        let _in_order = self.handler_order.lock().await;
+
         let mut doc_lock = self.doc_state.lock().await;
         let mut urls_to_clear = Vec::new();
 
@@ -544,6 +559,8 @@ impl LanguageServer for Backend {
     }
 
     async fn execute_command(&self, params: ExecuteCommandParams) -> JsonResult<Option<Value>> {
+        let _in_order = self.handler_order.lock().await;
+
         let mut string_args = params
             .arguments
             .iter()
@@ -690,6 +707,8 @@ impl LanguageServer for Backend {
     }
 
     async fn did_change_configuration(&self, params: DidChangeConfigurationParams) {
+        let _in_order = self.handler_order.lock().await;
+
         self.update_config_from_obj(params.settings).await;
 
         let urls: Vec<Url> = {
@@ -726,6 +745,8 @@ impl LanguageServer for Backend {
     }
 
     async fn shutdown(&self) -> JsonResult<()> {
+        let _in_order = self.handler_order.lock().await;
+
         let doc_states = self.doc_state.lock().await;
 
         // Clears the diagnostics for open buffers.
